@@ -1,7 +1,299 @@
+// Driver for C16: only correctly signed transactions paid by a signer are accepted.
+//
+// Correspondence cases (Corr/C16.v): checkTransactionSignatures / VerifyTransaction on decoded
+// transactions against Model/Sig.v run with recorded tables (key deserializer, abstract
+// signatures, address hashes), plus one case per crypto-library Verify call that validates the
+// abstract signature model itself.
+//
+// Oracle (directly on the implementation, independent of the model):
+//
+//	O1  every accepted Ontology-format transaction is justified: each signature set parses, has
+//	    1 <= M <= N <= 16, its first M signatures can be matched to M distinct key positions under
+//	    the crypto library's Verify over the transaction hash, the stored signer accounts are the
+//	    addresses of the sets, and the payer is one of them;
+//	O2  transactions that are invalid by construction (signature over another hash, by a foreign
+//	    key, the same signature counted twice, too few signatures, junk, payer not a signer,
+//	    signatures of another transaction ...) are rejected, valid ones are accepted;
+//	O3  every single-byte change of the signed content of an accepted transaction, and every
+//	    change of a counted signature after which the crypto library no longer verifies it under a
+//	    key of its set, is rejected;
+//	O4  the validator returns (no panic), and VerifyTransaction's code is ErrNoError exactly when
+//	    checkTransactionSignatures returned nil.
 package c16
 
-import "verif/harness/hx"
+import (
+	"bytes"
+	"encoding/json"
+	"fmt"
+	"strings"
+
+	"github.com/ontio/ontology-crypto/keypair"
+	s "github.com/ontio/ontology-crypto/signature"
+	"github.com/ontio/ontology/common"
+	"github.com/ontio/ontology/core/types"
+	ontErrors "github.com/ontio/ontology/errors"
+
+	"verif/harness/hx"
+)
 
 func init() { hx.Register("C16", Run) }
 
-func Run(c *hx.Ctx) {}
+// Input is the replayable description of one driver step.
+type Input struct {
+	Kind   string `json:"kind"`
+	Raw    string `json:"raw"`              // transaction bytes
+	Expect string `json:"expect,omitempty"` // accept | reject | "" (only O1/O4 apply)
+	Base   string `json:"base,omitempty"`   // for mutants: the accepted transaction they were derived from
+	Pos    int    `json:"pos,omitempty"`
+	Note   string `json:"note,omitempty"`
+}
+
+type Drv struct {
+	C         *hx.Ctx
+	W         *World
+	AbsBudget int
+	// hook for C17: called with every decoded transaction after the validator ran
+	After func(in Input, raw []byte, o Outcome, tables string, hashCoq string, views []SetView)
+	// NoCase suppresses the C16 correspondence cases and oracle (C17 reuses the generators)
+	NoCase bool
+}
+
+func panicClass(msg string) string {
+	switch {
+	case strings.Contains(msg, "slice bounds out of range"):
+		return "panic:eth-key-short-signature"
+	case strings.Contains(msg, "invalid point"):
+		return "panic:off-curve-key"
+	}
+	return "panic:other"
+}
+
+// maxMatching: can every row i (a counted signature) be matched to a distinct column j (a key
+// position) with ok[i][j]?
+func maxMatching(ok [][]bool, n int) int {
+	matchCol := make([]int, n)
+	for i := range matchCol {
+		matchCol[i] = -1
+	}
+	var try func(i int, seen []bool) bool
+	try = func(i int, seen []bool) bool {
+		for j := 0; j < n; j++ {
+			if ok[i][j] && !seen[j] {
+				seen[j] = true
+				if matchCol[j] < 0 || try(matchCol[j], seen) {
+					matchCol[j] = i
+					return true
+				}
+			}
+		}
+		return false
+	}
+	cnt := 0
+	for i := range ok {
+		if try(i, make([]bool, n)) {
+			cnt++
+		}
+	}
+	return cnt
+}
+
+// justify is oracle O1.
+func (d *Drv) justify(in Input, o Outcome, views []SetView) {
+	c := d.C
+	tx := o.Tx
+	hash := tx.Hash()
+	if len(tx.Sigs) > 16 {
+		c.Fail("accepted-too-many-sets", "more than 16 signature sets accepted", in, len(tx.Sigs), "<= 16")
+	}
+	want := map[common.Address]bool{}
+	for si, v := range views {
+		if !v.Parsed {
+			c.Fail("accepted-unparsed-set", "accepted although a signature set does not parse", in, si, "rejected")
+			return
+		}
+		n, m := len(v.Keys), v.M
+		if !(1 <= m && m <= n && n <= 16 && len(v.Sigs) >= m) {
+			c.Fail("accepted-bad-params", "accepted with an invalid threshold / key count / signature count", in,
+				map[string]int{"set": si, "m": m, "n": n, "sigs": len(v.Sigs)}, "1 <= m <= n <= 16, sigs >= m")
+			return
+		}
+		ok := make([][]bool, m)
+		for i := 0; i < m; i++ {
+			ok[i] = make([]bool, n)
+			sg, err := s.Deserialize(v.Sigs[i])
+			if err != nil {
+				continue
+			}
+			for j, k := range v.Keys {
+				c.Eval()
+				ok[i][j] = realVerify(k.Pub, hash[:], sg) == "VTrue"
+			}
+		}
+		if got := maxMatching(ok, n); got < m {
+			c.Fail("accepted-unverified", "accepted although the counted signatures do not verify under M distinct keys of the set", in,
+				map[string]int{"set": si, "distinct_verified": got, "m": m}, "rejected")
+			return
+		}
+		var addr common.Address
+		var err error
+		p, msg := hx.Recover(func() {
+			if n == 1 {
+				addr = types.AddressFromPubKey(v.Keys[0].Pub)
+			} else {
+				var pubs []keypair.PublicKey
+				for _, k := range v.Keys {
+					pubs = append(pubs, k.Pub)
+				}
+				addr, err = types.AddressFromMultiPubKeys(pubs, m)
+			}
+		})
+		if p || err != nil {
+			c.Fail("accepted-no-address", "accepted although the set has no address", in, fmt.Sprint(msg, err), "an address")
+			return
+		}
+		want[addr] = true
+	}
+	got := map[common.Address]bool{}
+	for _, a := range o.Addrs {
+		got[a] = true
+	}
+	same := len(got) == len(want) && len(o.Addrs) == len(got)
+	for a := range want {
+		same = same && got[a]
+	}
+	if !same {
+		c.Fail("signer-set-wrong", "tx.SignedAddr is not the set of addresses derived from the verified sets", in, len(got), len(want))
+	}
+	if !want[tx.Payer] {
+		c.Fail("payer-not-signer", "accepted although the payer is not one of the signer accounts", in, tx.Payer.ToHexString(), "rejected")
+	}
+}
+
+// DoTx runs one transaction: evaluation, correspondence case, oracle.
+func (d *Drv) DoTx(in Input, raw []byte, extra []*Key) (o Outcome, decoded bool) {
+	c := d.C
+	c.Eval()
+	in.Raw = hx.Hex(raw)
+	o, decoded = Evaluate(raw)
+	if !decoded {
+		c.Count("decode-rejected:" + in.Kind)
+		return
+	}
+	c.Count("outcome:" + o.Class)
+	c.Count("kind:" + in.Kind)
+	c.Count(fmt.Sprintf("sets:%d", len(o.Tx.Sigs)))
+	hash := o.Tx.Hash()
+	tables, abs, views := d.W.Tables(o.Tx, extra, "h")
+	for _, v := range views {
+		if v.Parsed {
+			if len(v.Keys) == 1 {
+				c.Count("set:single:" + kindOf(d.W.P, v.Keys[0]))
+			} else {
+				c.Count(fmt.Sprintf("set:%d-of-%d", v.M, len(v.Keys)))
+			}
+		} else {
+			c.Count("set:unparsed")
+		}
+	}
+	if d.After != nil {
+		d.After(in, raw, o, tables, hx.CoqBytes(hash[:]), views)
+	}
+	if d.NoCase {
+		return
+	}
+	c.Case(fmt.Sprintf("(let h := %s in CCheck %s %s %s %s)", hx.CoqBytes(hash[:]), d.W.VtxCoq(o.Tx, "h"), tables, o.Obs, o.Code), in)
+	d.W.EmitAbs(o.Tx, views, abs, in, d.AbsBudget)
+
+	// O4
+	if o.Panicked {
+		c.Fail(panicClass(o.PanicMsg), "the validator panicked instead of returning an error code", in, o.PanicMsg, "ErrVerifySignature")
+	}
+	okCode := fmt.Sprintf("(Some %d)", uint64(ontErrors.ErrNoError))
+	badCode := fmt.Sprintf("(Some %d)", uint64(ontErrors.ErrVerifySignature))
+	if !o.Panicked && ((o.Accepted && o.Code != okCode) || (!o.Accepted && o.Code != badCode)) {
+		c.Fail("code-mismatch", "VerifyTransaction's error code does not reflect checkTransactionSignatures", in, o.Code, o.Class)
+	}
+	// O1
+	if o.Accepted && !o.Tx.IsEipTx() {
+		d.justify(in, o, views)
+	}
+	// O2 / O3
+	switch in.Expect {
+	case "reject":
+		if o.Accepted {
+			c.Fail("accepted-invalid:"+in.Kind, "a transaction that is invalid by construction was accepted", in, o.Class, "rejected")
+		}
+	case "accept":
+		if !o.Accepted && !o.Panicked {
+			c.Fail("valid-rejected:"+in.Kind, "a correctly signed transaction paid by a signer was rejected", in, o.Class, "accepted")
+		}
+	}
+	if o.Accepted || strings.HasPrefix(o.Class, "reject:VE") && !strings.HasPrefix(o.Class, "reject:VEGetSig") {
+		c.Nontrivial(in.Raw)
+	}
+	if len(raw) < 400 {
+		c.Sample(map[string]interface{}{"kind": in.Kind, "expect": in.Expect, "outcome": o.Class, "sets": len(o.Tx.Sigs), "len": len(raw)})
+	}
+	return
+}
+
+func kindOf(p *Pool, k *Key) string {
+	if q := p.Find(k); q != nil {
+		return q.Kind
+	}
+	return "other"
+}
+
+// stillVerifies: does the crypto library accept sb under some key of the set over this hash?
+func stillVerifies(v SetView, sb []byte, hash []byte) bool {
+	sg, err := s.Deserialize(sb)
+	if err != nil {
+		return false
+	}
+	for _, k := range v.Keys {
+		if realVerify(k.Pub, hash, sg) == "VTrue" {
+			return true
+		}
+	}
+	return false
+}
+
+func (d *Drv) replay(in Input) {
+	raw := hx.UnHex(in.Raw)
+	var extra []*Key
+	if in.Base != "" {
+		if tx, err := types.TransactionFromRawBytes(hx.UnHex(in.Base)); err == nil {
+			for _, g := range tx.Sigs {
+				extra = append(extra, ViewSet(g).Keys...)
+			}
+		}
+	}
+	d.DoTx(in, raw, extra)
+}
+
+func Run(c *hx.Ctx) {
+	c.CoqModule("Corr.C16")
+	d := &Drv{C: c, AbsBudget: 12}
+	var rin Input
+	if c.ReplayInput(&rin) && rin.Raw != "" {
+		d.W = NewWorld(c, NewPool())
+		d.replay(rin)
+		return
+	}
+	pool := BuildPool(c, c.N(3, 6))
+	d.W = NewWorld(c, pool)
+	for _, k := range pool.Keys {
+		c.CoqHeader(fmt.Sprintf("Definition %s : pubkey := %s.", k.Name, k.CoqFull()))
+		c.Count("pool:" + k.Kind)
+	}
+	for _, rawIn := range c.CorpusInputs() {
+		var in Input
+		if json.Unmarshal(rawIn, &in) == nil && in.Raw != "" {
+			d.replay(in)
+		}
+	}
+	d.Generate()
+	c.Note(fmt.Sprintf("abstract-signature validation: %d crypto-library Verify calls compared with abs_verify", d.W.AbsN))
+}
+
+var _ = bytes.Equal
